@@ -29,6 +29,11 @@ def _canon_get(t: str) -> str:
         return t
 
 
+class DonorNotReplaced(Exception):
+    def __init__(self, call):
+        self.call = call
+
+
 def reuse_cache_roles(model: Model) -> dict:
     """Role-based reading of GlyphReuseCache (names of locals, of the dict attribute and `.get` vs `in` + index do not matter)."""
     from ..dataflow import resolved_text
@@ -37,6 +42,9 @@ def reuse_cache_roles(model: Model) -> dict:
     tcfg, acfg = cfg_of(tfi), cfg_of(afi)
     out = {"tfi": tfi, "afi": afi}
     stores = [st for st in walk_body(afi) if isinstance(st, ast.Assign) and isinstance(st.targets[0], ast.Subscript) and norm(st.targets[0].value).startswith("self.")]
+    sd = [c for c in calls_in(afi) if callee_tail(c) == "setdefault" and norm(c.func.value).startswith("self.")]
+    if not stores and sd:
+        raise DonorNotReplaced(sd[0])
     if len(stores) != 1:
         raise AnalysisError("GlyphReuseCache.add_glyph: expected one store into the donor table")
     st = stores[0]
@@ -99,7 +107,14 @@ def r06b_impl(model: Model, rr: RuleResult):
     else:
         rr.bad(fi, rets[0], "try_reuse no longer bails out when affine_between returns None", construct="try_reuse: affine is None check")
     ab = find_calls(fi, "affine_between")
-    roles = reuse_cache_roles(model)
+    try:
+        roles = reuse_cache_roles(model)
+    except DonorNotReplaced as e:
+        afi0 = model.func("glyph_reuse", "GlyphReuseCache.add_glyph")
+        rr.bad(afi0, e.call, f"{short(e.call, 70)}: the donor table keeps the FIRST shape registered for a normal form. A shape that had to be stored again because no exact affine "
+               f"to that first donor exists is registered but never becomes the donor, so all of its own later copies are compared with the wrong shape and stored again too",
+               construct="GlyphReuseCache.add_glyph: setdefault instead of assignment")
+        return
     KEY = "normalize(SVGPath(d=path), self._normalize_tolerance).d"
     ENTRY = f"{roles['table']}[{KEY}]"
     if roles["affine_between"] == [f"SVGPath(d={ENTRY}[1])", "SVGPath(d=path)", "self._reuse_tolerance"]:
@@ -250,7 +265,10 @@ def r06d_impl(model: Model, rr: RuleResult):
     # GlyphReuseCache: both normalisations use one tolerance and the same construction
     tfi = model.func("glyph_reuse", "GlyphReuseCache.try_reuse")
     afi = model.func("glyph_reuse", "GlyphReuseCache.add_glyph")
-    roles = reuse_cache_roles(model)
+    try:
+        roles = reuse_cache_roles(model)
+    except DonorNotReplaced:
+        return  # reported by R06b
     pp = afi.params[2] if len(afi.params) > 2 else "glyph_path"
     KEY = "normalize(SVGPath(d=path), self._normalize_tolerance).d"
     lookup_ok = any(KEY in (t or "") for t in (roles["affine_between"] or [])) or any(KEY in r for r, _ in roles["none_reasons"])
@@ -317,7 +335,12 @@ def r19b(model: Model, rr: RuleResult):
     for st in nones:
         f = [(norm(e), pol) for e, pol in guard_facts(tcfg, tcfg.node_for(st), skip_abort_guards=True)]
         reasons.append(f[-1] if f else ("<unconditional>", True))
-    roles = reuse_cache_roles(model)
+    try:
+        roles = reuse_cache_roles(model)
+    except DonorNotReplaced as e:
+        rr.bad(model.func("glyph_reuse", "GlyphReuseCache.add_glyph"), e.call, f"{short(e.call, 70)}: the first shape registered for a normal form stays the donor for ever; a "
+               f"shape stored again because it is no exact affine image of that donor never donates, so its copies are stored again as well", construct="GlyphReuseCache.add_glyph: setdefault instead of assignment")
+        return
     KEY = "normalize(SVGPath(d=path), self._normalize_tolerance).d"
     TBL = roles["table"]
     AFF = f"affine_between(SVGPath(d={TBL}[{KEY}][1]), SVGPath(d=path), self._reuse_tolerance)"
